@@ -341,3 +341,60 @@ def shrink(case):
                 yield dict(case, **{key: pre + '/'.join(segs[:i] + segs[i + 1:]) + sepq + tailq})
     if case["as_url1"] or case["as_url2"]:
         yield dict(case, as_url1=False, as_url2=False)
+
+
+# --------------------------------------------------------------------------
+# validation of the Spec's transcription against an independent implementation
+def extra_evidence(results):
+    """Testing of the SPEC, not of boltons (DESIGN 1.3 'Spec validation'): on a sample of this run's
+    (base.to_text(), ref1) pairs Coq evaluates the verbatim RFC 3986 5.2 algorithm of Spec/C07_Spec.v
+    (transform_gen false) and compares it with urllib.parse.urljoin.  Pairs urljoin is known not to
+    treat per RFC are excluded: schemes it does not resolve against, empty references (it returns the
+    base with its fragment), absolute references (returned unnormalised), empty path segments (it
+    drops them) and empty query/fragment markers (it drops them).  Never influences the verdict."""
+    import os
+    import re
+    import common as C
+    from urllib.parse import urljoin
+    rows, excluded = [], 0
+    for r in results:
+        if r.get("abnormal") or not isinstance(r.get("obs"), dict) or "before" not in r["obs"]:
+            continue
+        b, ref = r["obs"]["before"], r["case"]["ref1"]
+        bpath = b.split('#')[0].split('?')[0].split('://', 1)[-1].partition('/')[2]
+        rpath = ref.split('#')[0].split('?')[0]
+        if (b.split(':')[0] not in ('http', 'https', 'ftp', 'ws') or ref == '' or '://' in rpath
+                or '//' in ('/' + bpath) or '//' in rpath or ref[-1] in '?#' or '?#' in ref or '?&' in ref
+                or not (b + ref).isascii()):
+            excluded += 1
+            continue
+        rows.append((b, ref, urljoin(b, ref)))
+        if len(rows) >= 400:
+            break
+    if not rows:
+        return {"spec_validation": {"reference": "urllib.parse.urljoin", "compared": 0}}
+    d = os.path.join(C.BUILD, "cases", ID)
+    os.makedirs(d, exist_ok=True)
+    path = os.path.join(d, "C07_specval_%d.v" % os.getpid())
+    with open(path, "w") as f:
+        f.write("From Boltons Require Import Lib.Prelude Lib.C07_Str Spec.C07_Spec Proofs.C07_RfcExamples.\n"
+                "Open Scope N_scope.\n")
+        for i, (b, ref, j) in enumerate(rows):
+            f.write("Definition r%d := option_eqb str_eqb (rfc_resolve false %s %s) (Some %s).\n"
+                    % (i, _codes(b), _codes(ref), _codes(j)))
+        f.write("Eval vm_compute in (map (fun b : bool => if b then 1 else 0) [%s]).\n"
+                % "; ".join("r%d" % i for i in range(len(rows))))
+    rc, out = C.coqc(path)
+    for ext in (".v", ".vo", ".vok", ".vos", ".glob"):
+        if os.path.exists(path[:-2] + ext):
+            os.remove(path[:-2] + ext)
+    m = re.search(r"=\s*\[(.*?)\]\s*:\s*list", out, re.S)
+    if rc != 0 or not m:
+        return {"spec_validation": {"reference": "urllib.parse.urljoin", "error": out[-300:]}}
+    bits = [int(x) for x in re.findall(r"\d+", m.group(1))]
+    bad = [{"base": rows[i][0], "ref": rows[i][1], "urljoin": rows[i][2]} for i, v in enumerate(bits) if not v][:5]
+    return {"spec_validation": {"reference": "urllib.parse.urljoin (pairs it resolves per RFC 3986)",
+                                "spec": "Spec.C07_Spec.transform_gen false (RFC 3986 5.2 verbatim), evaluated by vm_compute",
+                                "compared": len(bits), "agree": sum(bits), "excluded_from_sample": excluded,
+                                "disagreements": bad,
+                                "static": "all examples of RFC 3986 5.4.1/5.4.2/5.2.4/Appendix B: Props C07_spec_rfc_examples"}}
